@@ -48,7 +48,7 @@ C = {
 }
 TYPES = {'string': 'string', 'bool': 'bool', 'int': 'int', 'int8': 'int8', 'int16': 'int16', 'int32': 'int32', 'int64': 'int64', 'uint': 'uint', 'uint8': 'uint8',
          'uint16': 'uint16', 'uint32': 'uint32', 'uint64': 'uint64', 'float32': 'float32', 'float64': 'float64', 'duration': 'time.Duration',
-         'um': 'main.UM', 'tb': 'main.TB', 'vv': 'main.VV', 'cc': 'main.CC', 'filename': 'flags.Filename'}
+         'um': 'main.UM', 'us': 'main.US', 'tb': 'main.TB', 'vv': 'main.VV', 'cc': 'main.CC', 'filename': 'flags.Filename'}
 out = []
 out.append('''------------------------------- MODULE ErrText -------------------------------
 (***************************************************************************)
